@@ -118,7 +118,7 @@ def run_task(job):
                 continue
             seen[k] = True
             uniq.append(ob)
-        results = solve.solve_all(uniq, timeout_ms=timeout_ms, workers=1, crosscheck=timeout_ms > 60000)
+        results = solve.solve_all(uniq, timeout_ms=timeout_ms, workers=1, crosscheck=timeout_ms > 60000, first_ms=getattr(cc, "z3_first_ms", None))
         for ob, r in zip(uniq, results):
             rec = {
                 "name": ob.name,
